@@ -42,17 +42,17 @@ FILLBYTE = 0xEE
 SWITCHES = {
     # NaN source value with an integer destination (put and get, variables and attributes): passes the range comparisons,
     # (int)NaN is executed.  Confirmed defect, replays/C09/nan-to-int-*.json
-    "nan_to_int": False,
+    "nan_to_int": True,
     # the value fl(MAX) = 2^63 (2^64) written to a 64-bit integer external type: `*ip > (double)X_INT64_MAX` is false, the cast
     # overflows, INT64_MIN (0 / garbage for unsigned) is stored with NC_NOERR.  Confirmed defect, replays/C09/flmax64-put-*.json
-    "flmax64_put": False,
+    "flmax64_put": True,
     # flexible API with a text buftype on a numeric variable or a numeric buftype on an NC_CHAR variable: assertion abort
     # instead of NC_ECHAR.  Confirmed defect, replays/C09/echar-flex-*.json
-    "echar_flex": False,
+    "echar_flex": True,
     # independent blocking put_varn whose buffer holds an out-of-range element: ncmpio_put_varn returns NC_ERANGE before
     # waiting for the request it just queued -> nothing is written, ncmpi_close reports NC_EPENDING.  Confirmed defect,
     # replays/C09/put-varn-indep-erange.json.  Off = such cases are run with the collective call instead.
-    "put_varn_indep_erange": False,
+    "put_varn_indep_erange": True,
 }
 
 
